@@ -28,6 +28,7 @@ from .._protocol.incoming import DNSIncoming
 from .._services.info import ServiceInfo
 from .._transport import _WrappedTransport
 from .._utils.net import IPVersion
+from .._utils.time import current_time_millis
 from ..const import (
     _ADDRESS_RECORD_TYPES,
     _CLASS_IN,
@@ -428,10 +429,14 @@ class QueryHandler:
             self.zc.async_send(out, addr, port, v6_flow_scope, transport)
         if question_answers.mcast_now:
             self.zc.async_send(construct_outgoing_multicast_answers(question_answers.mcast_now))
+        # A truncated query is answered once its continuation packets have
+        # been collected, which is later than the arrival of its first packet:
+        # delays (and the one second protection) count from now, not from then.
+        now = current_time_millis() if len(packets) > 1 or first_packet.truncated else first_packet.now
         if question_answers.mcast_aggregate:
-            self.out_queue.async_add(first_packet.now, question_answers.mcast_aggregate)
+            self.out_queue.async_add(now, question_answers.mcast_aggregate)
         if question_answers.mcast_aggregate_last_second:
             # https://datatracker.ietf.org/doc/html/rfc6762#section-14
             # If we broadcast it in the last second, we have to delay
             # at least a second before we send it again
-            self.out_delay_queue.async_add(first_packet.now, question_answers.mcast_aggregate_last_second)
+            self.out_delay_queue.async_add(now, question_answers.mcast_aggregate_last_second)
